@@ -60,7 +60,7 @@ def check_function(modname: str, fname: str, fn: Any) -> list[tuple[str, str, st
             if isinstance(dv, dims.AnyDim) or dv.symbolic:
                 continue
             p = args.Param(pname, "quantity", dv, decl, list(sig.parameters).index(pname))
-        if p.kind in ("default", "unsupported") or p.why == "any":
+        if p.kind in ("default", "unsupported", "free", "nested") or p.why == "any":
             continue
         if p.kind == "tupledecl":
             d0 = p.elems[0]
@@ -77,7 +77,7 @@ def check_function(modname: str, fname: str, fn: Any) -> list[tuple[str, str, st
             if qname == pname:
                 continue
             q = planned.get(qname)
-            if q is not None and q.kind != "default":
+            if q is not None and q.kind not in ("default", "free"):
                 others[qname] = args.realise_param(q)
             elif qname in sp_["inputs"]:
                 try:
